@@ -34,6 +34,10 @@ CATS = [
     (r".*", r"mir:(div_zero|rem_zero)", r".*", "constant non-zero divisor"),
     (r".*", r"mir:overflow_sub", r".*", "unsigned subtraction whose subtrahend is bounded by a preceding length / position test in the same function (debug builds panic on underflow, release builds would index out of range)"),
     (r".*", r"mir:overflow_neg", r".*", "negation of an i64 taken from a literal: only i64::MIN overflows; reachable only with the literal -9223372036854775808 (debug builds)"),
+    (r"^codegen/", r"mir:overflow_(add|mul):u16", r".*", "formatter column arithmetic (u16): overflows only for a line wider than 43 690 columns; the retry loop of write_or_expand is exponential long before that (known finding C12.R6)"),
+    (r".*", r"mir:overflow_add:u16", r"insert|new", "source id counter (u16): needs more than 65 535 source files in one SourceTree"),
+    (r"^semantic/", r"mir:overflow_add:i64", r"resolve_special_func", "`-rolling + 1` of a literal: a literal's magnitude is at most i64::MAX (the lexer rejects larger ones), so neither the negation nor the +1 can overflow"),
+    (r".*", r"mir:overflow(_add|_mul)?:i32", r".*", "counters of consecutive quote characters in the lexer (i32): bounded by the length of the source"),
     (r".*", r"mir:bounds", r".*", "fixed-size array indexed by a constant / loop counter bounded by its length"),
     (r".*", r"unreachable!", r".*", "compiler-bug invariant (CLAUDE.md allows unreachable! for these): the arm is excluded by a preceding match or stage"),
     (r".*", r"(panic|todo|assert|assert_eq|assert_ne|unimplemented)!", r".*", "explicit assertion of a compiler-bug invariant; no input reaching it was found while reviewing"),
